@@ -22,6 +22,7 @@
     * `formatBits`         — `Bits._format_bits` (1627-1653);
     * `maxBitsPerLine`, `ppLoop`, `ppLines` — `Bits._pp` (1669-1736);   `pp` — `Bits.pp` (1773-1812);
     * `ink`                — bitstring_options.py `Colour.__new__` (89-99);
+    * `arrayPP`            — `Array.pp` (array_.py:412-468) for bin / oct / hex formats;
     * `arrayRepr`          — `Array.__repr__` (array_.py:267-279) for uint / int / bin / oct / hex / bool items.
   GENERATED: `Gen.maxChars` (= `MAX_CHARS`), `Gen.ppDefaultBin/Hex/Oct`, and the graphs `Gen.*Bits2chars`
   (tied to `Fmt.b2c` by the obligations in Props/C19.lean).
@@ -635,6 +636,45 @@ def pp (a : PPArgs) : Except Err Layout :=
     | .ok lines =>
       .ok ⟨lines, if t ≠ 0 then some (strFormAlg a.lsb0 (trailingPart a.lsb0 a.l t)) else none⟩
 
+/-! ## `Array.pp` with bin / oct / hex formats -/
+
+/-- `token_length` of `Array.pp` (array_.py:441-449): the first format's bit length, else the second's, else the
+    item size of the Array's own dtype. -/
+def arrayTokenLength (itemsize : Nat) (t1 : Tok) (t2 : Option Tok) : Nat :=
+  match t1.len with
+  | some a => a
+  | none =>
+    match t2 with
+    | some ⟨_, some b⟩ => b
+    | _ => itemsize
+
+/-- `Array.pp(fmt, width, show_offset)` (array_.py:412-468) for one or two bin/oct/hex tokens (`fmt=None` on an Array
+    of such a dtype is the token of the dtype): `Dtype(name, length)` for each token, differing explicit lengths and a
+    zero length are `ValueError`; the separator is one blank; the data are `self.data` without the
+    `len % token_length` trailing bits (a `BitArray` slice: obeys lsb0), laid out by `Bits._pp` in groups of
+    `token_length` bits; offsets count items (`offset_factor = token_length`: same column width, values not observed). -/
+def arrayPP (data : Bits) (itemsize : Nat) (t1 : Tok) (t2 : Option Tok) (width : Nat)
+    (showOffset lsb0 colour : Bool) : Except Err Layout :=
+  match mkDtype t1 with
+  | .error e => .error e
+  | .ok () =>
+    let second : Except Err Unit := match t2 with | none => .ok () | some u => mkDtype u
+    match second with
+    | .error e => .error e
+    | .ok () =>
+      let differ : Bool := match t1.len, t2 with
+        | some a, some ⟨_, some b⟩ => a != b
+        | _, _ => false
+      if differ then .error .value else
+      let tl := arrayTokenLength itemsize t1 t2
+      if tl = 0 then .error .value else
+      let t := data.length % tl
+      let d := if t = 0 then data else dataPart lsb0 data t
+      match ppLines ⟨t1.fmt, t2.map (·.fmt), tl, width, [' '], showOffset, lsb0, colour⟩ d with
+      | .error e => .error e
+      | .ok lines =>
+        .ok ⟨lines, if t ≠ 0 then some (strFormAlg lsb0 (trailingPart lsb0 data t)) else none⟩
+
 /-! ## `Array.__repr__` for integer, bool and digit-string items (msb0) -/
 
 inductive Kind where
@@ -760,6 +800,18 @@ def handle (args : List String) : String :=
       | none => "bad-op"
       | some t2 =>
         match pp ⟨l, t1, t2, w, sp, so, z, !nc⟩ with
+        | .ok lay => "ok " ++ layoutToWire (!nc) lay
+        | .error (.internal n) => "err Internal:" ++ n
+        | .error _ => "err"
+    | _, _, _, _, _, _, _ => "bad-op"
+  | "app" :: isz :: bits :: f1 :: f2 :: width :: so :: lsb0 :: nc :: _ =>
+    match isz.toNat?, bitsOfStr? bits, parseTok? f1, width.toNat?, boolOfWire? so, boolOfWire? lsb0, boolOfWire? nc with
+    | some isz, some l, some t1, some w, some so, some z, some nc =>
+      let t2? : Option (Option Tok) := if f2 = "-" then some none else (parseTok? f2).map some
+      match t2? with
+      | none => "bad-op"
+      | some t2 =>
+        match arrayPP l isz t1 t2 w so z (!nc) with
         | .ok lay => "ok " ++ layoutToWire (!nc) lay
         | .error (.internal n) => "err Internal:" ++ n
         | .error _ => "err"
